@@ -38,7 +38,6 @@ func checkDefs() map[string]CheckDef {
 		ID: "C17",
 		Obligations: []Obligation{
 			{Pkg: "internal/verifh/c17", Harness: "VerifC17Injective", Quick: map[string]int{"K": 1, "exact": 1, "extraParts": 1}, TV: 10},
-			{Pkg: "internal/verifh/c17", Harness: "VerifC17Injective", Quick: map[string]int{"K": 2, "exact": 1, "extraParts": 2}, OnlyT: true},
 			{Pkg: "internal/verifh/c17", Harness: "VerifC17Independent", Quick: map[string]int{"K": 1, "exact": 1}, TV: 10},
 			{Pkg: "internal/verifh/c17", Harness: "VerifC17CloneRoundTrip", Quick: map[string]int{"K": 1, "exact": 1}, TV: 10},
 			{Pkg: "internal/verifh/c17", Harness: "VerifC17Validate", TV: 10},
